@@ -7,4 +7,5 @@ pub mod variant;
 pub mod d_codec;
 pub mod d_decode;
 pub mod d_sign;
+pub mod d_system;
 pub mod d_verify;
